@@ -29,12 +29,14 @@ confirmation run of the scenario on its own):
     failure must also show on the in-process stamps taken right after RateLimitWait (first metric of the handler)
     where they exist; otherwise it is logged as NOT-REPRODUCED spawn lag.
   * C18/limiter-probe/...: B + 2 consecutive direct RateLimitWait calls on the hook object the operator built from the
-    hook's config obey the same bound (catches a limiter built from the wrong setting/unit without any process lag).
+    hook's config (full bucket) obey the same bound, in two rounds (catches a limiter built from the wrong
+    setting/unit without any process lag).
   * C18/unthrottled/...: two hooks without settings with 24 tasks queued alternately (no combination possible) run
-    back to back: third quartile of the pauses between the end of one process and the start of the next <= 50 ms
-    (typically 3-10 ms; any limiter of the scale configured here makes every run, or every second run, wait >= 90 ms)
-    and, in process, third quartile of the time between q.get and the return of RateLimitWait <= 25 ms (typically
-    0.03 ms); 100 direct RateLimitWait calls on a hook without settings take < 100 ms (fastest of 3 batches).
+    back to back: a failure needs the third quartile of the pauses between the end of one process and the start of the
+    next above 50 ms (typically 3-10 ms; any limiter of the scale configured here makes every run, or every second
+    run, wait >= 90 ms) AND, in process, the third quartile of the time between q.get and the return of RateLimitWait
+    above 25 ms (typically 0.03 ms); 100 direct RateLimitWait calls on a hook without settings take < 100 ms (fastest of
+    3 batches).
 Not a violation (the statement gives an upper bound only): a limiter that is stricter than configured - burst not
 granted, longer interval, one limiter shared by several hooks with settings.  The direct probe reports these as
 DIVERGENCE notes.  Excluded: settings with I <= 0 or B <= 0 (the statement is about configured limits), webhook-triggered
